@@ -333,6 +333,9 @@ func vxDrawResponse(t *rapid.T) *cqlspec.Response {
 		if len(r.Meta.Columns) > 50 && nrows > 2 {
 			nrows = 2
 		}
+		if len(r.Meta.Columns) == 0 {
+			nrows = 0 // rows of no columns: nothing a server sends, and the driver refuses the frame (see DESIGN 9.4)
+		}
 		for i := 0; i < nrows; i++ {
 			row := make([]cqlspec.Value, len(r.Meta.Columns))
 			for j, c := range r.Meta.Columns {
